@@ -17,7 +17,7 @@ RULE = ("Generated: portfolio of 2-6 assets (all LP classes, order books, scaled
         "multi-commodity, transports; T up to 14 so that assets have more than 11 variables) x an injective renaming "
         "of assets (top level and inside structured assets) and nodes drawn from pools with numeric strings "
         "('1','11','111','0','10','01'), mutual prefixes/suffixes ('a','aa','a_','_a'), spaces, "
-        "'<asset>_internal_<node>' look-alikes x a permutation of the asset list. Oracle: |V - V'| <= tol; the "
+        "'<asset>_internal_<node>' look-alikes x a permutation of the asset list and of the asset lists inside structured assets. Oracle: |V - V'| <= tol; the "
         "renamed/permuted solution transferred back through (asset, variable, node, step) is feasible and optimal for "
         "the original problem; the dispatch and DCF tables of the renamed run, relabelled back, equal the tables "
         "extract_output gives for the ORIGINAL portfolio evaluated at the transferred vector. Non-trivial: >= 3 "
@@ -76,7 +76,13 @@ def _strategy(draw):
     perm = list(range(len(spec["assets"])))
     if mode in ("both", "permute"):
         perm = list(draw(st.permutations(perm)))
-    spec["rename"] = {"assets": amap, "nodes": nmap, "perm": perm}
+    inner = {}
+    if mode in ("both", "permute"):
+        # the order inside wrapped portfolios is an order of assets as well
+        for a in spec["assets"]:
+            if a["type"] == "structured" and len(a["assets"]) > 1:
+                inner[a["name"]] = list(draw(st.permutations(list(range(len(a["assets"]))))))
+    spec["rename"] = {"assets": amap, "nodes": nmap, "perm": perm, "inner": inner}
     return spec
 
 
@@ -91,6 +97,8 @@ def renamed(spec):
     s2.pop("rename")
 
     def fix(a):
+        if a["type"] == "structured" and a["name"] in rn.get("inner", {}):
+            a["assets"] = [a["assets"][i] for i in rn["inner"][a["name"]]]
         a["name"] = am.get(a["name"], a["name"])
         if "nodes" in a:
             a["nodes"] = [nm.get(n, n) for n in a["nodes"]]
@@ -112,7 +120,8 @@ def check(spec):
     s1.pop("rename")
     s2 = renamed(spec)
     ident_r = all(k == v for k, v in rn["assets"].items()) and all(k == v for k, v in rn["nodes"].items())
-    ident_p = rn["perm"] == sorted(rn["perm"])
+    ident_p = rn["perm"] == sorted(rn["perm"]) and all(p_ == sorted(p_) for p_ in rn.get("inner", {}).values())
+    out.label("inner_permuted" if any(p_ != sorted(p_) for p_ in rn.get("inner", {}).values()) else None)
     out.label("renamed" if not ident_r else "same_names", "permuted" if not ident_p else "same_order")
     r1 = obs.Run(s1)
     if is_err(r1.op):
